@@ -8,4 +8,7 @@ mkdir -p evidence replays lean/SparseV/Generated
 /venv/bin/python tools/py2lean.py --repo "${VERIF_REPO:-/repo}" --out lean/SparseV/Generated
 /venv/bin/python tools/gen_root.py
 cd lean
-lake build SparseV svdriver
+lake build svdriver
+# build every module; a proof that does not check against the current source is reported by that
+# property's own check (VIOLATION ... no-failing-input-found), it must not stop the setup
+lake build SparseV || echo "setup: some Lean modules do not build; the individual checks report which"
